@@ -34,20 +34,26 @@ template <> struct HK<Array<Tracked> > { static Array<Tracked> make() { Array<Tr
 template <> struct HK<Map<int, Tracked> > { static Map<int, Tracked> make() { Map<int, Tracked> m; m[1] = Tracked(); return m; } static bool alive(const Map<int, Tracked>& h) { return h.length() == 1 && h[1].magic == 0x600d; } static const char* name() { return "Map<int,Tracked>"; } enum { payloads = 1 }; };
 template <> struct HK<HashMap<int, int> > { static HashMap<int, int> make() { HashMap<int, int> m(4); m[1] = 5; m[5] = 6; return m; } static bool alive(const HashMap<int, int>& h) { return h.length() == 2 && h[5] == 6; } static const char* name() { return "HashMap<int,int>"; } enum { payloads = 0 }; };
 template <> struct HK<Shared<Tracked> > { static Shared<Tracked> make() { return Shared<Tracked>(new Tracked()); } static bool alive(const Shared<Tracked>& h) { return h->magic == 0x600d; } static const char* name() { return "Shared<Tracked>"; } enum { payloads = 1 }; };
+// a two-node list whose nodes hold the handle to their successor: "own = own->next" assigns from a handle that lives inside the object the destination releases
+struct Node { Tracked t; Shared<Node> next; };
+typedef Shared<Node> List;
+template <> struct HK<List> { static List make() { List a(new Node()), b(new Node()); a->next = b; return a; } static bool alive(const List& h) { return !h._p || h->t.magic == 0x600d; } static const char* name() { return "Shared<Node> list"; } enum { payloads = 2 }; };
+template <class H> static void popHead(H&) {}
+template <> void popHead<List>(List& h) { if (h._p) h = h->next; }
 template <> struct HK<Obj> { static Obj make() { return Obj(); } static bool alive(const Obj& h) { return h._()->t.magic == 0x600d; } static const char* name() { return "SmartObject-derived"; } enum { payloads = 1 }; };
 
-enum Op { COPY, ASSIGN_LO, ASSIGN_OL, DROP_L, DROP_O, FRESH };
-static const char* OPN[] = { "local=copy(own)", "local=own", "own=local", "drop local", "drop own", "own=fresh object" };
+enum Op { COPY, ASSIGN_LO, ASSIGN_OL, DROP_L, DROP_O, FRESH, POP };
+static const char* OPN[] = { "local=copy(own)", "local=own", "own=local", "drop local", "drop own", "own=fresh object", "own=own->next" };
 typedef std::vector<int> Prog;
-static void genProgs(int maxLen, bool own, bool local, Prog cur, std::vector<Prog>& out) {
+static void genProgs(int maxLen, bool own, bool local, Prog cur, std::vector<Prog>& out, bool withPop = false) {
 	out.push_back(cur);
 	if ((int)cur.size() == maxLen) return;
-	for (int op = 0; op < 6; op++) {
+	for (int op = 0; op < (withPop ? 7 : 6); op++) {
 		bool ok = op == COPY ? (own && !local) : op == ASSIGN_LO || op == ASSIGN_OL ? (own && local) : op == DROP_L ? local : own;
 		if (!ok) continue;
 		if (op == FRESH && !cur.empty() && cur.back() == FRESH) continue;
 		Prog n = cur; n.push_back(op);
-		genProgs(maxLen, op == DROP_O ? false : own, op == COPY ? true : op == DROP_L ? false : local, n, out);
+		genProgs(maxLen, op == DROP_O ? false : own, op == COPY ? true : op == DROP_L ? false : local, n, out, withPop);
 	}
 }
 static std::string progStr(const Prog& p) { std::string s; for (size_t i = 0; i < p.size(); i++) s += (i ? "; " : "") + std::string(OPN[p[i]]); return s.empty() ? "(nothing)" : s; }
@@ -66,6 +72,7 @@ struct Worker : public Thread {
 			case DROP_L: delete local; local = 0; break;
 			case DROP_O: delete own; own = 0; break;
 			case FRESH: *own = HK<H>::make(); break;
+			case POP: popHead(*own); break;
 			}
 			check();
 		}
@@ -178,11 +185,11 @@ static void counterJob(bool atomicT, const std::vector<const Prog*>& progs, cons
 
 // ---------------------------------------------------------------- job table
 struct Job { int family; int kind; std::vector<int> prog; int bound; }; // family 0 = handles, 1 = AtomicCount, 2 = Atomic<Counter>
-static std::vector<Prog> HP, CP1, CP2;
+static std::vector<Prog> HP, HPL, CP1, CP2;
 static std::string jobName(const Job& j) { std::string s = fmt("f%d.k%d.b%d", j.family, j.kind, j.bound); for (size_t i = 0; i < j.prog.size(); i++) s += fmt(".%d", j.prog[i]); return s; }
 static void runJob(const Job& j, const std::string* replay) {
 	std::vector<const Prog*> ps;
-	const std::vector<Prog>& table = j.family == 0 ? HP : j.family == 1 ? CP1 : CP2;
+	const std::vector<Prog>& table = j.family == 0 ? (j.kind == 5 ? HPL : HP) : j.family == 1 ? CP1 : CP2;
 	for (size_t i = 0; i < j.prog.size(); i++) ps.push_back(&table[j.prog[i]]);
 	std::string desc;
 	for (size_t i = 0; i < ps.size(); i++) desc += fmt("%sT%d: ", i ? " || " : "", (int)i + 1) + (j.family == 0 ? progStr(*ps[i]) : vf::hist_str(vf::Hist(ps[i]->begin(), ps[i]->end())));
@@ -194,6 +201,7 @@ static void runJob(const Job& j, const std::string* replay) {
 		case 1: handleJob<Map<int, Tracked> >(ps, kase, j.bound, replay); break;
 		case 2: handleJob<HashMap<int, int> >(ps, kase, j.bound, replay); break;
 		case 3: handleJob<Shared<Tracked> >(ps, kase, j.bound, replay); break;
+		case 5: handleJob<List>(ps, kase, j.bound, replay); break;
 		default: handleJob<Obj>(ps, kase, j.bound, replay); break;
 		}
 	} else counterJob(j.family == 2, ps, kase, j.bound, replay);
@@ -209,11 +217,12 @@ int main(int argc, char** argv) {
 	vsched::set_fatal_handler(onFatal);
 	bool T = vf::opt.thorough();
 	genProgs(T ? 3 : 2, true, false, Prog(), HP);
+	genProgs(T ? 3 : 2, true, false, Prog(), HPL, true);
 	genCounterProgs(2, T ? 4 : 3, CP1);
 	genCounterProgs(5, 2, CP2);
 	std::vector<Job> jobs;
 	// two threads (+ main): every pair of handle programs, every handle kind, all schedules with <= 2 preemptions
-	for (int k = 0; k < 5; k++) for (size_t a = 0; a < HP.size(); a++) for (size_t b = a; b < HP.size(); b++) { Job j; j.family = 0; j.kind = k; j.prog.push_back((int)a); j.prog.push_back((int)b); j.bound = 2; jobs.push_back(j); }
+	for (int k = 0; k < 6; k++) { size_t np = k == 5 ? HPL.size() : HP.size(); for (size_t a = 0; a < np; a++) for (size_t b = a; b < np; b++) { Job j; j.family = 0; j.kind = k; j.prog.push_back((int)a); j.prog.push_back((int)b); j.bound = 2; jobs.push_back(j); } }
 	// three threads: every triple of programs of <= 1 (quick) / 2 (thorough) ops, preemption bound 2 / 3
 	{ std::vector<Prog> small; genProgs(1, true, false, Prog(), small); size_t n = small.size();
 	  for (int k = 0; k < 5; k++) for (size_t a = 0; a < n; a++) for (size_t b = a; b < n; b++) for (size_t c = b; c < n; c++) { Job j; j.family = 0; j.kind = k; j.prog.push_back((int)a); j.prog.push_back((int)b); j.prog.push_back((int)c); j.bound = T ? 2 : 1; jobs.push_back(j); } }
